@@ -400,7 +400,10 @@ func genRdrHist(c *genCtx, sw *shardWriter, j *jb) {
 		segs := []seg{{[]byte(open), n}, {[]byte(bottom), 1}, {[]byte(close), n}}
 		return rdrStep{data: expandSegs(segs), segs: segs}
 	}
-	deep := []rdrStep{mk("[", "]", "1", 10001), mk(`{"a":`, "}", "1", 10001), mk("[", "", "", 500), mk(`[{"a":`, "", "", 300)}
+	deep := []rdrStep{mk("[", "]", "1", 10001), mk(`{"a":`, "}", "1", 10001), mk("[", "", "", 500), mk(`[{"a":`, "", "", 300),
+		// exactly at the limit: the deepest documents a fresh reader accepts
+		mk("[", "]", "1", 10000), mk(`{"a":`, "}", "1", 10000), mk(`[{"a":`, "}]", "null", 5000), mk(`{"a":[`, "]}", "", 5000),
+		mk("[", "]", "", 9999)}
 	n := 60
 	if c.thorough() {
 		n = 600
@@ -423,7 +426,7 @@ func genRdrHist(c *genCtx, sw *shardWriter, j *jb) {
 		var steps []rdrStep
 		for si := 0; si < nsteps; si++ {
 			var s rdrStep
-			if c.rng.Intn(12) == 0 {
+			if c.rng.Intn(8) == 0 {
 				s = deep[c.rng.Intn(len(deep))]
 			} else {
 				s = docs[c.rng.Intn(len(docs))]
